@@ -181,6 +181,8 @@ def interest_addrs(st):
             out.append(Val.addr(v.term))
     for t in st.ghost.get("skolem_addr", []):
         out.append(t)
+    for t in st.ghost.get("frame_cells", []):
+        out.append(t)
     return out
 
 
@@ -369,6 +371,14 @@ def tree_consistency(c, i):
                 continue
             mn = z3.IntVal(m.addr)
             out.append(("L-ATTACH:child-view", post.sel("View", mn) == bs.sub_of(post.sel("View", i["rn"]), VRef(mn))))
+    # built-in containers that belong to no collection tree: the class-level buffer statics, buffer entries, and
+    # whatever the caller registered as such [A-TREE]
+    for v in pre.statics.values():
+        if isinstance(v, Z) and v.hint in ("dict", "list"):
+            a_ = Val.addr(v.term)
+            out.append(("frame:static-container", post.sel("Cell", a_) == pre.sel("Cell", a_)))
+    for t in pre.ghost.get("frame_cells", []):
+        out.append(("frame:foreign-container", post.sel("Cell", t) == pre.sel("Cell", t)))
     # objects outside this tree
     for a, rec in pre.objs.items():
         if not rec.tag.startswith("node"):
@@ -590,6 +600,8 @@ def register(eng):
     V.register(eng)
     from contracts import tree as T
     T.register(eng)
+    from contracts import buffers as B
+    B.register(eng)
     ld, sv = LoadContract(), SaveContract()
     lfr, str_ = LoadFromResourceContract(), SaveToResourceContract()
     for ci in P.classes.values():
